@@ -18,6 +18,7 @@ import (
 	"encoding/json"
 	"fmt"
 	"io"
+	"log"
 	"net/http"
 	"net/http/httptest"
 	"net/url"
@@ -120,7 +121,7 @@ func c10HugeIndex(q string) bool {
 
 var c10WatchdogOnce sync.Once
 
-// in a child process only: end the process as soon as the heap passes 256 MB, with a first stderr line the parent
+// in a child process only: end the process as soon as the heap passes 384 MB, with a first stderr line the parent
 // reports as the crash — so that an unbounded allocation is observed without exhausting the machine
 func c10MemoryWatchdog() {
 	isChild := false
@@ -133,13 +134,16 @@ func c10MemoryWatchdog() {
 		return
 	}
 	c10WatchdogOnce.Do(func() {
+		// with a soft limit the collector keeps the heap near the live data, so that garbage of earlier exchanges
+		// is not mistaken for an unbounded allocation
+		debug.SetMemoryLimit(128 << 20)
 		go func() {
 			var m runtime.MemStats
 			for {
 				time.Sleep(20 * time.Millisecond)
 				runtime.ReadMemStats(&m)
-				if m.HeapAlloc > 256<<20 {
-					fmt.Fprintf(os.Stderr, "fatal error: C10 memory watchdog: heap exceeds 256 MB (%d MB) while one exchange is validated\n", m.HeapAlloc>>20)
+				if m.HeapAlloc > 384<<20 {
+					fmt.Fprintf(os.Stderr, "fatal error: C10 memory watchdog: heap exceeds 384 MB (%d MB) while one exchange is validated\n", m.HeapAlloc>>20)
 					os.Exit(3)
 				}
 			}
@@ -147,7 +151,12 @@ func c10MemoryWatchdog() {
 	})
 }
 
+var c10QuietOnce sync.Once
+
 func runC10InProcess(c hx.Case) any {
+	// the middlewares log every rejected request through the standard logger: in a child process those lines would
+	// be taken for the reason of a crash (first line of its stderr)
+	c10QuietOnce.Do(func() { log.SetOutput(io.Discard) })
 	switch jstr(c, "op") {
 	case "server":
 		return c10RunServer(c)
@@ -1371,7 +1380,7 @@ var c10CTs = []string{"", "application/json", "application/json; charset=utf-8",
 var c10Queries = []string{"", "q=1", "q=x", "q=1&q=2", "q", "q=", "q=1,2", "q[a]=1", "q[a]=1&q[a][b]=2", "q[b]=1&q[b][c]=2", "p[b]=1&p[b][c]=2", "q=%zz", "q=a|b", "q=a%20b",
 	"q=[1,2]", "q={\"a\":1}", "q={", "p=1&q=2", "q=1&q=x", "&&&", "q=null", "q=true", "q[]=1", "q[a][b][c]=1", "q.a=1", "q=9223372036854775808", "q=1e400", "q=b,c",
 	"q=NaN", "q=NaN&q=1", "q=1,Inf", "q[a]=nan", "p=-Infinity&q=2", "q=inf|1", "q=1%20NaN", "q[b]=NaN&q[c]=1",
-	"q[b][0]=1&q[b][1]=2", "q[b][3]=1", "q[b][4095]=1", "q[b][-1]=1", "q[b][x]=1", "q[b][0][0]=1", "p[b][2]=7&p[b][0]=1", "q[0]=1&q[1]=2", "q[b][999]=x"}
+	"q[b][0]=1&q[b][1]=2", "q[b][3]=1", "q[b][300]=1", "q[b][-1]=1", "q[b][x]=1", "q[b][0][0]=1", "p[b][2]=7&p[b][0]=1", "q[0]=1&q[1]=2", "q[b][999]=x"}
 var c10Values = []string{"5", "x", "", "a/b", "%2F", ".5", "1,2", ".1.2", ";x=1", "a=1,b=2", "true", "{x}",
 	"NaN", "1,NaN", "Inf,2", "-inf", "+Infinity", "nan,nan", "1e999", "0x1p-2", "1_0"}
 
@@ -1530,7 +1539,7 @@ func c10RandTraffic(r *hx.Rng) hx.Case {
 			}
 			op["parameters"] = append(ps, prm)
 			req["method"] = strings.ToUpper(m)
-			idx := hx.Pick(r, []string{"0", "1", "2", "7", "00", "+1", "-1", "x", "", "4095", "999", "1e3", "0x10", " 1"})
+			idx := hx.Pick(r, []string{"0", "1", "2", "7", "00", "+1", "-1", "x", "", "300", "64", "1e3", "0x10", " 1"})
 			if r.Chance(2) {
 				idx = hx.Pick(r, []string{"2000000000", "9223372036854775807", "+4000000000", "100000000000"}) // F-C10-8 (runs in a child)
 			}
